@@ -1201,6 +1201,11 @@ def to_symbytes(x):
 
 # ----------------------------------------------------------------------------- str
 
+def _truth(x):
+    """bool() of a possibly symbolic condition (forks when symbolic)."""
+    return bool(x)
+
+
 class Utf8Str:
     """A str represented by its (already validated) UTF-8 bytes."""
 
@@ -1272,6 +1277,91 @@ class Utf8Str:
 
     def __contains__(self, sub):
         return Utf8Str.of(sub).items in _SubseqView(self.items)
+
+    # ---- whitespace stripping (str.strip/lstrip/rstrip without argument) -------------------------------------
+    # the characters str.isspace() accepts, as UTF-8: one byte 09-0D 1C-1F 20; two bytes C2 85, C2 A0; three bytes
+    # E1 9A 80, E2 80 80..8A, E2 80 A8/A9/AF, E2 81 9F, E3 80 80 (validated against str.strip in the self-test)
+    @staticmethod
+    def _ws1(b):
+        return sym_or(sym_and(b >= 0x09, b <= 0x0D), sym_and(b >= 0x1C, b <= 0x20))
+
+    @staticmethod
+    def _ws2(a, b):
+        return sym_and(a == 0xC2, sym_or(b == 0x85, b == 0xA0))
+
+    @staticmethod
+    def _ws3(a, b, c):
+        return sym_or(sym_and(a == 0xE1, b == 0x9A, c == 0x80),
+                      sym_and(a == 0xE2, b == 0x80, sym_or(sym_and(c >= 0x80, c <= 0x8A), c == 0xA8, c == 0xA9, c == 0xAF)),
+                      sym_and(a == 0xE2, b == 0x81, c == 0x9F), sym_and(a == 0xE3, b == 0x80, c == 0x80))
+
+    def _lead_ws(self, it):
+        """Number of bytes of the whitespace character at the start of it (0 = none); forks on symbolic bytes."""
+        if len(it) >= 1 and _truth(self._ws1(it[0])):
+            return 1
+        if len(it) >= 2 and _truth(self._ws2(it[0], it[1])):
+            return 2
+        if len(it) >= 3 and _truth(self._ws3(it[0], it[1], it[2])):
+            return 3
+        return 0
+
+    def _trail_ws(self, it):
+        n = len(it)
+        if n >= 1 and _truth(self._ws1(it[-1])):
+            return 1
+        if n >= 2 and _truth(self._ws2(it[-2], it[-1])):
+            return 2
+        if n >= 3 and _truth(self._ws3(it[-3], it[-2], it[-1])):
+            return 3
+        return 0
+
+    def lstrip(self, chars=None):
+        if self.concrete():
+            return Utf8Str.of(self.to_str().lstrip(None if chars is None else str(chars)))
+        if chars is not None:
+            raise EngineUnsupported("str.lstrip(chars) on a symbolic string")
+        it = list(self.items)
+        while it:
+            k = self._lead_ws(it)
+            if not k:
+                break
+            it = it[k:]
+        return Utf8Str(it)
+
+    def rstrip(self, chars=None):
+        if self.concrete():
+            return Utf8Str.of(self.to_str().rstrip(None if chars is None else str(chars)))
+        if chars is not None:
+            raise EngineUnsupported("str.rstrip(chars) on a symbolic string")
+        it = list(self.items)
+        while it:
+            k = self._trail_ws(it)
+            if not k:
+                break
+            it = it[:-k]
+        return Utf8Str(it)
+
+    def strip(self, chars=None):
+        if self.concrete():
+            return Utf8Str.of(self.to_str().strip(None if chars is None else str(chars)))
+        return self.lstrip(chars).rstrip(chars)
+
+    def __getattr__(self, name):
+        # any other str method: exact on concrete strings, unsupported (inconclusive, never "held") on symbolic ones
+        if name.startswith("__") or not hasattr(str, name):
+            raise AttributeError(name)
+
+        def call(*a, **k):
+            if not self.concrete():
+                raise EngineUnsupported(f"str.{name} on a symbolic string")
+            a = [x.to_str() if isinstance(x, Utf8Str) and x.concrete() else x for x in a]
+            r = getattr(self.to_str(), name)(*a, **k)
+            if isinstance(r, str):
+                return Utf8Str.of(r)
+            if isinstance(r, (list, tuple)) and all(isinstance(x, str) for x in r):
+                return type(r)(Utf8Str.of(x) for x in r)
+            return r
+        return call
 
     def __len__(self):
         if self.concrete():
